@@ -13,14 +13,14 @@ primitives they are composed of are modelled and proved in Bee2V/C08).
 import os, re
 import vcommon
 
-CSR = bytes.fromhex(
-    "3082017A30820134020100305F3115301306035504030C0C524F4245525420534D495448310E300C06035504040C05534D495448310F300D060355042A0C06"
-    "524F42455254311830160603550405130F50415347422D3533333332343432383131" "0B3009060355040613024742305D3018060A2A7000020022652D02"
-    "01060A2A7000020022652D0301034100F64CDDFFE4D546EF484471583FAEBA9A38061084E280BF996F90BA6AF0DB6620F59ABAA7AD29D4E7D1CA0C21DD9E32"
-    "D485F9E740841F4317CA9481503D1F1B50A06F301F06092A864886F70D01090731120C102F494E464F3A65726970323334313233304C06092A864886F70D01"
-    "090E313F303D30170603551D200410300E300C060A2A7000020022654E023D30220603551D11041B30198117726F626572742E736D697468406578616D706C"
-    "652E756B300D06092A7000020022652D0C050003310082B4F9F934E3FD457F5DF06AE63A88E722E35D35F565551535BA94CEF9243011999DF2159E4F4BAC22"
-    "AD8C3135A3BD26")
+CSR = bytes.fromhex(   # the certificate request of test/crypto/bpki_test.c (382 octets)
+    "3082017A30820134020100305F3115301306035504030C0C524F4245525420534D495448310E300C06035504040C05534D495448310F300D06035504"
+    "2A0C06524F42455254311830160603550405130F50415347422D353333333234343238310B3009060355040613024742305D3018060A2A7000020022"
+    "652D0201060A2A7000020022652D0301034100F64CDDFFE4D546EF484471583FAEBA9A38061084E280BF996F90BA6AF0DB6620F59ABAA7AD29D4E7D1"
+    "CA0C21DD9E32D485F9E740841F4317CA9481503D1F1B50A06F301F06092A864886F70D01090731120C102F494E464F3A65726970323334313233304C"
+    "06092A864886F70D01090E313F303D30170603551D200410300E300C060A2A7000020022654E023D30220603551D11041B30198117726F626572742E"
+    "736D697468406578616D706C652E756B300D06092A7000020022652D0C050003310082B4F9F934E3FD457F5DF06AE63A88E722E35D35F565551535BA"
+    "94CEF9243011999DF2159E4F4BAC22AD8C3135A3BD26")
 KEY = "11" * 32
 
 
@@ -88,6 +88,82 @@ def wellformed(x, off, end, opaque=()):
 def single_tree(x, opaque=()):
     h = tl(x, 0, len(x))
     return h is not None and h[0] + h[1] == len(x) and wellformed(x, 0, len(x), opaque)
+
+
+def len_octets(l):
+    if l < 128:
+        return bytes([l])
+    n = (l.bit_length() + 7) // 8
+    return bytes([128 + n]) + l.to_bytes(n, "big")
+
+
+def parse_tree(x, off, end):
+    """[[tag octets, children | None, value]] for the TLVs in x[off:end] (strict DER assumed)"""
+    out = []
+    while off < end:
+        hl, l, cons = tl(x, off, end)
+        p = off + 1
+        if x[off] & 31 == 31:
+            while x[p] & 128:
+                p += 1
+            p += 1
+        tag = x[off:p]
+        val = x[off + hl:off + hl + l]
+        kids = parse_tree(x, off + hl, off + hl + l) if cons and wellformed(x, off + hl, off + hl + l) else None
+        out.append([tag, kids, val])
+        off += hl + l
+    return out
+
+
+def serialize(nodes):
+    b = b""
+    for tag, kids, val in nodes:
+        v = serialize(kids) if kids is not None else val
+        b += bytes(tag) + len_octets(len(v)) + bytes(v)
+    return b
+
+
+def leaf_variants(x):
+    """well-formed DER re-serialisations of x with ONE primitive leaf shortened / extended / emptied / dropped / doubled"""
+    import copy
+    tree = parse_tree(x, 0, len(x))
+    leaves = []
+
+    def walk(nodes, path):
+        for i, n in enumerate(nodes):
+            if n[1] is None:
+                leaves.append(path + [i])
+            else:
+                walk(n[1], path + [i])
+    walk(tree, [])
+    out = []
+    for path in leaves:
+        for how in ("short", "long", "long2", "empty", "drop", "dup"):
+            t = copy.deepcopy(tree)
+            nodes = t
+            for i in path[:-1]:
+                nodes = nodes[i][1]
+            n = nodes[path[-1]]
+            if how == "short":
+                if not n[2]:
+                    continue
+                n[2] = n[2][:-1]
+            elif how == "long":
+                n[2] = n[2] + b"A"
+            elif how == "long2":
+                n[2] = n[2] + b"\x00\x00"
+            elif how == "empty":
+                if not n[2]:
+                    continue
+                n[2] = b""
+            elif how == "drop":
+                del nodes[path[-1]]
+            elif how == "dup":
+                nodes.insert(path[-1], copy.deepcopy(n))
+            y = serialize(t)
+            if y != x:
+                out.append(y)
+    return out
 
 
 # ------------------------------------------------------------------ generation
@@ -195,6 +271,8 @@ def build_ops(ctx, exe):
         else:
             ms = mutants(x, rng, 1 if (th or len(x) < 400) else 2)
         ops += [pre + hx(y) for y in ms]
+        if d in ("pkdec", "shdec", "eddec", "bpdec", "cvcdec") and len(x) < 1000:
+            ops += [pre + hx(y) for y in leaf_variants(x)]
         if d == "smcu":
             # every combination of Lc* form and Le* form around the same protected body (these octets are
             # not covered by the MAC)
@@ -215,9 +293,11 @@ def build_ops(ctx, exe):
             body = body[:hb[0] + hb[1]]
             ops.append("cvcbody " + hx(body))
             ops += ["cvcbody " + hx(y) for y in mutants(body, rng, 2)]
+            ops += ["cvcbody " + hx(y) for y in leaf_variants(body)]
     # CSR (no encoder in the library: bounds + well-formedness outside the opaque fields)
     ops.append("csrdec " + hx(CSR))
     ops += ["csrdec " + hx(y) for y in mutants(CSR, rng)]
+    ops += ["csrdec " + hx(y) for y in leaf_variants(CSR)]
     # hand-made alternatives of documented optional parts / forms
     return enc_ops, enc_out, valid, ops
 
@@ -297,6 +377,10 @@ def judge(op, out):
             x = unhx(w[1]); c = int(o[8])
             if c > len(x): fails.append("consumed %d > input %d" % (c, len(x)))
             elif not single_tree(x[:c]): fails.append("accepted body is not a well-formed DER tree")
+            if not (8 <= len(unhx(o[0])) <= 12 and 8 <= len(unhx(o[1])) <= 12):
+                fails.append("decoded authority/holder do not fit char[13] with 8..12 characters (lengths %d, %d)" % (len(unhx(o[0])), len(unhx(o[1]))))
+            if len(unhx(o[6])) not in (48, 64, 96, 128):
+                fails.append("decoded public key length %d" % len(unhx(o[6])))
         elif k == "smcu":
             second.append(("smcw %s %s" % (w[1], out), w[2], "re-wrap of the accepted protected command"))
         elif k == "smru":
@@ -340,6 +424,10 @@ def run(ctx):
             bad.append((dop, "the decoder rejects what the encoder produced (`%s` -> %s)" % (eop[:200], got[:200])))
         elif exp is not None and got != exp:
             bad.append((dop, "decode(encode v) != v: `%s` gives `%s`, expected `%s`" % (eop[:200], got[:200], exp[:200])))
+    # the library's own CSR test vector must be accepted with the offsets of its structure
+    got = index.get("csrdec " + hx(CSR))
+    if got is not None and got != "4 312 139 334 382":
+        bad.append(("csrdec " + hx(CSR), "the valid certificate request of bpki_test.c is not decoded as expected: `%s`" % got[:200]))
     # (ii) mutants
     second, acc = [], 0
     kinds = {}
